@@ -14,12 +14,13 @@ THEOREMS = [
     "BeyondVerif.C04.utcFields_label_independent",
     "BeyondVerif.C04.tdiff_label_independent",
     "BeyondVerif.C04.tle_epoch_label_independent",
-    "BeyondVerif.C04.eop_day_depends_on_label",
+    "BeyondVerif.C04.eop_day_label_independent",
+    "BeyondVerif.C04.eop_day_own_scale_depends_on_label",
 ]
 LEVEL_TEXT = ("Lean theorems over an integer-microsecond model of Date (value = instant in the reference scale + a label): every date-handling step "
               "used by the date-consuming operations (time since epoch, UTC calendar fields handed to SGP4, the TLE epoch field, ordering/equality) "
-              "is a function of the instant alone, for all instants and all pairs of labels; the one step that is NOT (the EOP day lookup, which uses "
-              "the day number of the label scale) has a kernel-checked counter-witness and is filed as a known finding. The model is tied to the "
+              "is a function of the instant alone, for all instants and all pairs of labels; the EOP day lookup, which used the day number of the label scale (finding, "
+              "fixed by fc514f7), is now by UTC day and proved label-free; the old behaviour keeps a kernel-checked regression witness. The model is tied to the "
               "code by a correspondence run on Date/timedelta operations and by an oracle sweep of every date-consuming public operation x 6 labels "
               "for the argument date x 6 labels for the epoch on the real API.")
 LEVEL_NOTE = ("the theorems cover the date-handling layer only; that each operation uses the date only through those steps is established by the "
@@ -69,10 +70,22 @@ def correspondence(ctx):
         reqs.append(f"c04.delta {ra} {oa} {rb} {ob}")
         meta.append((real, {"a": str(a), "b": str(b)}))
         out.count(key=reqs[-1], nontrivial=l1 != l2, kind=f"delta-{l1}-{l2}")
+    # EOP day: the record attached to a date is that of int(UTC mjd), whatever the label (dates away from leap seconds)
+    for _ in range(ctx.n(200, 2000)):
+        mjd = rng.randint(47000, 57400)
+        us = rng.choice([rng.randrange(0, 86400 * 10**6), rng.randrange(86400 * 10**6 - 70 * 10**6, 86400 * 10**6), rng.randrange(0, 70 * 10**6)])
+        lab = rng.choice(SCALES[1:4])
+        d_utc = Date(mjd, 0.0) + timedelta(microseconds=us)
+        a = d_utc.change_scale(lab)
+        real_day = next((k for k in range(mjd - 1, mjd + 3) if (a.eop.ut1_utc, a.eop.x) == (Date(k, 43200.0).eop.ut1_utc, Date(k, 43200.0).eop.x)), None)
+        ra = a.d * 86400 * 10**6 + round(a.s * 1e6)
+        reqs.append(f"c04.eopday {ra} {round(a._offset * 1e6)} {round(d_utc._offset * 1e6)}")
+        meta.append((real_day, {"date": str(a)}))
+        out.count(key=reqs[-1], kind=f"eopday-{lab}", window=us < 70 * 10**6 or us > 86400 * 10**6 - 70 * 10**6)
     replies = core.Driver().run(reqs)
     for req, (real, inp), rep in zip(reqs, meta, replies):
         if rep != str(real):
-            out.fail("c04-delta", "time difference of two dates in different scales differs between Date and the integer model", inp, observed=real, expected=rep)
+            out.fail("c04-" + req.split()[0].split(".")[1], "date-handling step differs between Date and the integer model: " + req.split()[0], inp, observed=real, expected=rep)
         out.sample({"request": req, "impl_us": real, "model": rep}, limit=3)
     return out
 
